@@ -18,6 +18,16 @@ for a in sys.argv[2:]:
         pid, p['title'], p['statement'], p['quantifier']['text'], p['why_tests_cant'],
         json.dumps(p['anchors'], indent=1))
     f = ('Suggested area for your change (other areas were used by earlier volunteers; stay inside the property): ' + focus) if focus else ''
+    # one-line summaries of the changes earlier volunteers already delivered for this property: a new delivery that
+    # repeats one of them is discarded, so the volunteer is told what not to repeat (nothing else about /verif)
+    sd = os.path.join(here, '..', '..', 'seeded')
+    used = []
+    for d in sorted(os.listdir(sd)):
+        mp = os.path.join(sd, d, 'meta.json')
+        if d.startswith(pid + '-') and os.path.exists(mp):
+            used.append('  - ' + ' '.join(json.load(open(mp)).get('summary', d).split())[:260])
+    if used:
+        f += '\n\nChanges ALREADY DELIVERED by earlier volunteers for this property - do not repeat any of them or a close variant (a repeat is discarded):\n' + '\n'.join(used)
     out = brief.replace('{WT}', wt).replace('{PROPERTY}', text).replace('{FOCUS}', f).replace('{ID}', pid)
     open('/tmp/mutkit/prompts/%s%s.md' % (pid, tag), 'w').write(out)
     print(wt)
